@@ -10,10 +10,24 @@ def get(modname, clsname, params, pts, t, pos=()):
     sol = s(np.array(pts, dtype=float), t)
     return {n: np.asarray(sol[n], dtype=float) for n in sol.dtype.names}
 
-def cmp(a, b, names, tol):
+def cmp(a, b, names, tol, mask_jumps=False):
     worst = {}
+    keep = None
+    if mask_jumps:
+        # the general-EOS driver interpolates its own grid: skip the cells around a discontinuity of either route
+        keep = np.ones(len(a[names[0]]), bool)
+        def jumps(f):
+            d = np.abs(np.diff(f)) / (np.maximum(np.abs(f[1:]), np.abs(f[:-1])) + 1e-12)
+            m = np.zeros(len(f), bool)
+            for i in np.nonzero(d > 0.02)[0]:
+                m[max(0, i - 3):i + 5] = True
+            return m
+        for n in names:
+            keep &= ~(jumps(a[n]) & jumps(b[n]))       # only where BOTH routes have a discontinuity at the same place
     for n in names:
         x, y = a[n], b[n]
+        if keep is not None:
+            x, y = x[keep], y[keep]
         sc = np.maximum(np.abs(x), np.abs(y)) + 1e-12
         d = float(np.nanmax(np.abs(x - y) / sc))
         if d > tol or np.any(np.isnan(x) != np.isnan(y)):
@@ -28,7 +42,7 @@ def main(payload):
             if c.get('negate_b'):
                 for n in c['negate_b']:
                     b[n] = -b[n]
-            out.append(cmp(a, b, c['names'], c['tol']))
+            out.append(cmp(a, b, c['names'], c['tol'], c.get('mask_jumps', False)))
         except Exception as ex:
             out.append({'error': type(ex).__name__ + ': ' + str(ex)[:200]})
     return out
@@ -59,11 +73,46 @@ def pairs(rng, n):
         out.append({'what': '%sSedov vs Sedov(geometry=%d)' % (wname, g), 'a': ['exactpack.solvers.sedov', wname + 'Sedov', {'gamma': gam}, pts, t],
                     'b': ['exactpack.solvers.sedov', 'Sedov', {'geometry': g, 'gamma': gam, 'eblast': {1: 0.0673185, 2: 0.311357, 3: 0.851072}[g]}, pts, t],
                     'names': HYD, 'tol': 1e-9})
+        # ideal-gas vs general-EOS Riemann driver on ideal-gas data, each wave pattern, different gammas left and right
+        r4 = lambda lo, hi: float('%.4g' % rng.uniform(lo, hi))
+        P = {'pl': r4(0.3, 3), 'pr': r4(0.3, 3), 'rl': r4(0.3, 3), 'rr': r4(0.3, 3), 'ul': 0.0, 'ur': 0.0, 'gl': r4(1.2, 2.2), 'gr': r4(1.2, 2.2),
+             'xmin': -3.0, 'xd0': 0.2, 'xmax': 3.0, 't': 0.25}
+        pat = ['SCR', 'RCS', 'RCR', 'SCS', 'random'][len(out) % 5]
+        if pat == 'SCR':
+            P.update(pl=r4(0.05, 0.2), pr=r4(0.8, 2))
+        elif pat == 'RCS':
+            P.update(pl=r4(0.8, 2), pr=r4(0.05, 0.2))
+        elif pat == 'RCR':
+            P.update(pl=P['pr'], ul=-r4(0.2, 0.5), ur=r4(0.2, 0.5))
+        elif pat == 'SCS':
+            P.update(pl=P['pr'], ul=r4(0.3, 1.0), ur=-r4(0.3, 1.0))
+        else:
+            P.update(ul=r4(-1, 1), ur=r4(-1, 1))
+        xs = [-1.3 + 3.0 * k / 1500 for k in range(1501)]      # fine enough that a fan changes by well under 2 % per cell
+        for pp, tag in ((P, pat), (dict(P, pl=P['pr'], ul=-r4(0.2, 0.5), ur=r4(0.2, 0.5)), 'RCR')):
+            out.append({'what': 'IGEOS_Solver vs GenEOS_Solver (%s)' % tag, 'a': ['exactpack.solvers.riemann.ep_riemann', 'IGEOS_Solver', pp, xs, 0.25],
+                        'b': ['exactpack.solvers.riemann.ep_riemann', 'GenEOS_Solver', pp, xs, 0.25], 'names': ['pressure', 'density', 'velocity', 'specific_internal_energy'],
+                        'tol': 2e-4, 'mask_jumps': True})
+        # heat: planar sandwiches vs the rod with the matching boundary condition; rod BC3 vs the mirror image of BC4
+        kap, L = r4(0.3, 3), r4(0.5, 3)
+        TL, TR, g1, g2, b1 = r4(-2, 5), r4(-2, 5), r4(-2, 2), r4(-2, 2), r4(0.5, 2)
+        base = dict(kappa=kap, L=L, TL=TL, TR=TR, Nsum=80)
+        hx = [L * k / 12 for k in range(13)]; ht = r4(0.01, 0.3) * L * L / kap
+        HM = 'exactpack.solvers.heat'
+        out.append({'what': 'PlanarSandwich vs Rod1D BC1', 'a': [HM, 'PlanarSandwich', dict(base, TB=g1, TT=g2), hx, ht],
+                    'b': [HM, 'Rod1D', dict(base, alpha1=1, beta1=0, gamma1=g1, alpha2=1, beta2=0, gamma2=g2), hx, ht], 'names': ['temperature'], 'tol': 1e-12})
+        out.append({'what': 'PlanarSandwichHot vs Rod1D BC2', 'a': [HM, 'PlanarSandwichHot', dict(base, F=g1), hx, ht],
+                    'b': [HM, 'Rod1D', dict(base, alpha1=0, beta1=1, gamma1=g1, alpha2=0, beta2=1, gamma2=g1), hx, ht], 'names': ['temperature'], 'tol': 1e-12})
+        out.append({'what': 'PlanarSandwichHalf vs Rod1D BC3', 'a': [HM, 'PlanarSandwichHalf', dict(base, TB=g1, FT=g2), hx, ht],
+                    'b': [HM, 'Rod1D', dict(base, alpha1=1, beta1=0, gamma1=g1, alpha2=0, beta2=1, gamma2=g2), hx, ht], 'names': ['temperature'], 'tol': 1e-12})
+        out.append({'what': 'Rod1D BC4 vs mirror image of BC3', 'a': [HM, 'Rod1D', dict(base, alpha1=0, beta1=b1, gamma1=g1, alpha2=1.0, beta2=0, gamma2=g2), hx, ht],
+                    'b': [HM, 'Rod1D', dict(base, TL=TR, TR=TL, alpha1=1.0, beta1=0, gamma1=g2, alpha2=0, beta2=-b1, gamma2=g1), [L - x for x in hx], ht],
+                    'names': ['temperature'], 'tol': 1e-9})
     return out
 
 
 def oracle(rng, tier, reasons):
-    ps = pairs(rng, 4 if tier == 'quick' else 30)
+    ps = pairs(rng, 5 if tier == 'quick' else 30)
     res = H.run_real(SCRIPT, ps, timeout=1800)
     fails = []
     for p, r in zip(ps, res):
